@@ -1623,20 +1623,48 @@ func c07ScopePushPop(c *Ctx) {
 	c.Fn(FuncName(enter))
 	c.Fn(FuncName(exit))
 	// the node type asserted on the way to the store into w.localScopes
+	storesScopes := func(fn *ssa.Function) *ssa.Store {
+		for _, b := range fn.Blocks {
+			for _, ins := range b.Instrs {
+				if st, ok := ins.(*ssa.Store); ok {
+					if fa, ok := st.Addr.(*ssa.FieldAddr); ok {
+						if fv := fieldVarOf(fa.X.Type(), fa.Field); fv != nil && fv.Name() == "localScopes" {
+							return st
+						}
+					}
+				}
+			}
+		}
+		return nil
+	}
+	// helpers of the walker (methods on the same receiver) that update the stack for Enter / Exit
+	helpers := map[*ssa.Function][]*ssa.Function{}
 	guardType := func(fn *ssa.Function) (types.Type, token.Pos) {
 		for _, b := range fn.Blocks {
 			for _, ins := range b.Instrs {
-				st, ok := ins.(*ssa.Store)
-				if !ok {
+				var pos token.Pos
+				switch x := ins.(type) {
+				case *ssa.Store:
+					fa, ok := x.Addr.(*ssa.FieldAddr)
+					if !ok {
+						continue
+					}
+					if fv := fieldVarOf(fa.X.Type(), fa.Field); fv == nil || fv.Name() != "localScopes" {
+						continue
+					}
+					pos = x.Pos()
+				case *ssa.Call:
+					cal := x.Call.StaticCallee()
+					if cal == nil || cal == fn || cal.Signature.Recv() == nil || len(cal.Blocks) == 0 || len(x.Call.Args) == 0 || !(x.Call.Args[0] == ssa.Value(fn.Params[0]) || isSpillOf(x.Call.Args[0], fn.Params[0])) || storesScopes(cal) == nil {
+						continue
+					}
+					helpers[fn] = append(helpers[fn], cal)
+					c.Fn(FuncName(cal))
+					pos = x.Pos()
+				default:
 					continue
 				}
-				fa, ok := st.Addr.(*ssa.FieldAddr)
-				if !ok {
-					continue
-				}
-				if fv := fieldVarOf(fa.X.Type(), fa.Field); fv == nil || fv.Name() != "localScopes" {
-					continue
-				}
+				st := struct{ Pos func() token.Pos }{func() token.Pos { return pos }}
 				for d := b; d != nil && d.Idom() != nil; d = d.Idom() {
 					iff, ok := lastIf(d.Idom())
 					if !ok || d.Idom().Succs[0] != d {
@@ -1675,25 +1703,27 @@ func c07ScopePushPop(c *Ctx) {
 	}
 	// the pop happens whenever a scope is there to pop: a guard may protect the empty stack
 	// (len ≥ 1) but must not demand more
-	for _, b := range exit.Blocks {
-		for _, ins := range b.Instrs {
-			sl, ok := ins.(*ssa.Slice)
-			if !ok || sl.High == nil {
-				continue
+	for _, pfn := range append([]*ssa.Function{exit}, helpers[exit]...) {
+		for _, b := range pfn.Blocks {
+			for _, ins := range b.Instrs {
+				sl, ok := ins.(*ssa.Slice)
+				if !ok || sl.High == nil {
+					continue
+				}
+				lx, cc, ok := lenMinus(sl.High)
+				if !ok || cc != 1 {
+					continue
+				}
+				bc := &boundsCtx{fn: pfn}
+				if !bc.sameSeq(lx, sl.X) {
+					continue
+				}
+				site := &idxSite{fn: pfn, x: sl.X, need: 2}
+				bc.prove(site, sl)
+				c.Sites++
+				c.Check(!site.ok, "scope.pushpop", "hclsyntax.variablesWalker:pop.guard", sl.Pos(), "the pop is not held back while a scope is on the stack",
+					"the pop in Exit only happens when at least two scopes are on the stack ("+site.why+"): the outermost scope is never popped, so the names it binds hide root variables of the same name for the rest of the expression")
 			}
-			lx, cc, ok := lenMinus(sl.High)
-			if !ok || cc != 1 {
-				continue
-			}
-			bc := &boundsCtx{fn: exit}
-			if !bc.sameSeq(lx, sl.X) {
-				continue
-			}
-			site := &idxSite{fn: exit, x: sl.X, need: 2}
-			bc.prove(site, sl)
-			c.Sites++
-			c.Check(!site.ok, "scope.pushpop", "hclsyntax.variablesWalker:pop.guard", sl.Pos(), "the pop is not held back while a scope is on the stack",
-				"the pop in Exit only happens when at least two scopes are on the stack ("+site.why+"): the outermost scope is never popped, so the names it binds hide root variables of the same name for the rest of the expression")
 		}
 	}
 	c.Check(constructed, "scope.pushpop", "hclsyntax.variablesWalker:constructed", pe, "the pushed node type is the one walkChildNodes constructs", fmt.Sprintf("no walkChildNodes method constructs a node of the type %v that Enter pushes a scope for", te))
@@ -2144,7 +2174,6 @@ func c07WalkFlags(c *Ctx) {
 	}
 	c.Floor("walk.flags conditional walks", n, 1, "ObjectConsKeyExpr")
 }
-
 
 // alwaysCalls: every path through the module function f from its entry to a return passes a call
 // of target (directly or through such a function).
